@@ -28,7 +28,7 @@ ANCHORS = ["decaylanguage.dec.dec:DecFileParser._add_decays_to_be_copied", "deca
            "decaylanguage.dec.dec:DecFileParser.expand_decay_modes", "decaylanguage.dec.dec:DecFileParser.print_decay_modes"]
 WORKERS = {"quick": 8, "thorough": 16}
 REQUIRED = {**{f"op:{o}": 30 for o in OPS}, "mutated:list": 20, "mutated:dict": 20, "mutated:nested-chain": 20, "mutated:list-of-lists": 10,
-            "file:CopyDecay+CDecay": 10, "file:copy-is-cdecay-source": 5, "file:two-copies-of-one-source": 5, "file:first-block-is-an-alias-and-copy-source": 5, "file:alias-pair-with-changing-partner": 10, "identity-walk:derived-tables": 20, "reparse": 30, "steps-compared": 1000,
+            "file:CopyDecay+CDecay": 10, "file:copy-is-cdecay-source": 5, "file:two-copies-of-one-source": 5, "copy-semantics-without-conjugates": 10, "file:first-block-is-an-alias-and-copy-source": 5, "file:alias-pair-with-changing-partner": 10, "identity-walk:derived-tables": 20, "reparse": 30, "steps-compared": 1000,
             "exhaustive-short-histories": 100}
 EXHAUSTIVE_NOTE = "all histories of length 2 (quick) / 3 (thorough) over the 15 operation kinds on 5 fixed files"
 ASSUMPTIONS = ["grammar_info() returns the live options dict by design: it is called but never mutated", "a CopyDecay source is a Decay-block mother"]
@@ -359,6 +359,13 @@ def run(ctx):
             ctx.mon("C08.copy_equals_source_but_for_mother")
             for mech, msg in snapshot.compare_tables(res[0], exp):
                 ctx.violate("copy-semantics:" + mech, msg, wit)
+        if ok and i % 3 == 0:
+            # a fresh instance parsed without conjugated tables: the copies are there all the same (CopyDecay is not a conjugation)
+            ctx.hit("copy-semantics-without-conjugates")
+            ok3, res3 = ctx.guard("parse:include_ccdecays=False", wit, snapshot.make_parser, text, None, (), False)
+            if ok3:
+                for mech, msg in snapshot.compare_tables(res3[0], L.expected(stmts, include_cc=False)):
+                    ctx.violate("copy-semantics:include_ccdecays=False:" + mech, msg, wit)
         n = ctx.rng.choice([5, 10, 20, 40])
         ops = [ctx.rng.choice(OPS) for _ in range(n)]
         # a mutation is only meaningful right after a query that returned something
